@@ -42,3 +42,9 @@ Definition env_states_for_destroy : list estate := [sCONFIGURED; sDEPLOYED; sSTA
 (* reads of the FSM state (CurrentState / Sm.Current / Sm.Is / Sm.Can) that precede the first
    transitionMutex.Lock / TryLock in TryTransition, ForceError and TeardownEnvironment *)
 Definition env_prelock_state_reads : N := 0.
+
+(* RpcServer.ControlEnvironment: ways out of the function (return, goto, panic) between the
+   requested TryTransition and the fallback to ERROR; uses of the caller's context after the
+   requested TryTransition *)
+Definition env_control_exits_before_fallback : N := 0.
+Definition env_control_ctx_uses_after_transition : N := 0.
